@@ -49,20 +49,25 @@ type scenario struct {
 	HostActive bool
 	Device     uint16
 	Retry      int
-	T1, T2     time.Duration
+	T1, T2, T4 time.Duration
 	Senders    [2]int
 	PerSender  int
 	FaultRate  int // 1/FaultRate of the writes is faulted while faults are on (0 = clean)
 	FaultsFor  time.Duration
 	Sizes      []int
+	// Bias: faults are aimed at the contention path — the block the equipment sends while the host
+	// has yielded, and the host's own blocks while its send is being retried — instead of uniformly
+	Bias bool
 }
 
 type lineEvent struct {
-	at   time.Duration
-	side int // who wrote it: 0 host, 1 equipment
-	kind string // "enq", "eot", "ack", "nak", "block", "other"
-	hdr  [10]byte
+	at      time.Duration
+	side    int    // who wrote it: 0 host, 1 equipment
+	kind    string // "enq", "eot", "ack", "nak", "block", "other"
+	hdr     [10]byte
 	faulted bool
+	num     int
+	sys     uint32
 }
 
 type harness struct {
@@ -71,23 +76,36 @@ type harness struct {
 	n  *simnet.Net
 	r  [2]*rig.Rig1 // 0 host, 1 equipment
 
-	msgs     []*msg
-	byTok    map[string]*msg
-	doneSend [2]int
-	faultsOn bool
-	faultsOffAt time.Duration
-	events   []lineEvent
-	attempts map[[10]byte]int
-	maxAttempts int
-	delivered [2][]string // tokens in delivery order, per receiving side
-	finalOK  [2]bool
-	finished bool
-	stop     bool
+	msgs         []*msg
+	byTok        map[string]*msg
+	doneSend     [2]int
+	faultsOn     bool
+	faultsOffAt  time.Duration
+	events       []lineEvent
+	attempts     map[[10]byte]int
+	maxAttempts  int
+	delivered    [2][]string // tokens in delivery order, per receiving side
+	finalOK      [2]bool
+	finished     bool
+	stop         bool
 	inBlockFault bool
-	cutAt    int
-	delayChar bool
-	quietUntil time.Duration
-	pipeSide map[*simnet.Pipe]int
+	cutAt        int
+	delayChar    bool
+	quietUntil   time.Duration
+	pipeSide     map[*simnet.Pipe]int
+	// reference E4 sender model per side (the oracle for "a block is attempted at most retry-limit+1
+	// times"): attempts of the send in progress = the ENQs this end has written since the send began
+	att          [2]int
+	blockSent    [2]bool // a block was written since this end's last ENQ
+	hostYielding bool
+	staleAck     [2]bool // an ACK is on its way to this end although it is not waiting for one
+	curPipe      [2]*simnet.Pipe
+	curHdr       [2][10]byte
+	fresh        [2]bool       // the previous send of this end ended at a known point (its block was ACKed / new connection)
+	lastBlock    [2]*lineEvent // last block written by each side (for attributing the other side's ACK)
+	// accepted[side][sys][blockNo] = instant the receiving end ACKed that block of a message sent by side
+	accepted         map[int]map[uint32]map[int]time.Duration
+	sysTok           map[int]map[uint32]string
 	lastFaultedWrite int
 }
 
@@ -98,11 +116,15 @@ func genScenario(t *core.Tape, faulty bool) scenario {
 	sc.Retry = t.Choose("scn", 6)
 	sc.T1 = 40 * time.Millisecond
 	sc.T2 = []time.Duration{150 * time.Millisecond, 300 * time.Millisecond}[t.Choose("scn", 2)]
+	// T4 (inter-block): comfortably long, or short enough that a multi-block message slowed down by
+	// retries takes longer than T4 in total while every single gap stays below it
+	sc.T4 = []time.Duration{20 * time.Second, time.Second, 400 * time.Millisecond}[t.Choose("scn", 3)]
 	sc.Senders = [2]int{1 + t.Choose("scn", 3), 1 + t.Choose("scn", 3)}
 	sc.PerSender = 1 + t.Choose("scn", 5)
 	if faulty {
 		sc.FaultRate = []int{6, 12, 25}[t.Choose("scn", 3)]
 		sc.FaultsFor = time.Duration(1+t.Choose("scn", 6)) * time.Second
+		sc.Bias = t.Choose("scn", 2) == 1
 	}
 	for i := 0; i < 16; i++ {
 		sc.Sizes = append(sc.Sizes, []int{0, 10, 200, 241, 242, 300, 600, 900, 1100}[t.Choose("scn", 9)])
@@ -113,8 +135,13 @@ func genScenario(t *core.Tape, faulty bool) scenario {
 
 // Build returns the scenario builder.
 func Build(config string) core.BuildFunc {
+	if config == "scripted" {
+		return buildScripted()
+	}
+
 	return func(w *core.World) *core.Scenario {
-		h := &harness{w: w, byTok: map[string]*msg{}, attempts: map[[10]byte]int{}, pipeSide: map[*simnet.Pipe]int{}}
+		h := &harness{w: w, byTok: map[string]*msg{}, attempts: map[[10]byte]int{}, pipeSide: map[*simnet.Pipe]int{},
+			accepted: map[int]map[uint32]map[int]time.Duration{0: {}, 1: {}}, sysTok: map[int]map[uint32]string{0: {}, 1: {}}}
 		h.sc = genScenario(w.T, config == "faulty")
 		sc := h.sc
 		h.n = simnet.New(w)
@@ -123,7 +150,7 @@ func Build(config string) core.BuildFunc {
 		mk := func(side int) *rig.Rig1 {
 			active := sc.HostActive == (side == 0)
 
-			return rig.NewSECS1(w, rig.Opts1{Active: active, Equip: side == 1, Device: sc.Device, T1: sc.T1, T2: sc.T2, T3: 30 * time.Second, T4: 20 * time.Second, T5: 200 * time.Millisecond,
+			return rig.NewSECS1(w, rig.Opts1{Active: active, Equip: side == 1, Device: sc.Device, T1: sc.T1, T2: sc.T2, T3: 30 * time.Second, T4: sc.T4, T5: 200 * time.Millisecond,
 				Retry: sc.Retry, BackoffInit: 20 * time.Millisecond, BackoffMult: 2, CloseTimeout: time.Second, Net: h.n, Name: fmt.Sprint(side)})
 		}
 		h.r[0], h.r[1] = mk(0), mk(1)
@@ -164,8 +191,8 @@ func Build(config string) core.BuildFunc {
 func (h *harness) describe() map[string]any {
 	sc := h.sc
 
-	return map[string]any{"hostActive": sc.HostActive, "device": sc.Device, "retryLimit": sc.Retry, "T1": sc.T1.String(), "T2": sc.T2.String(), "sendersHost": sc.Senders[0], "sendersEquip": sc.Senders[1],
-		"sendsEach": sc.PerSender, "faultRate": sc.FaultRate, "faultsFor": sc.FaultsFor.String()}
+	return map[string]any{"hostActive": sc.HostActive, "device": sc.Device, "retryLimit": sc.Retry, "T1": sc.T1.String(), "T2": sc.T2.String(), "T4": sc.T4.String(), "sendersHost": sc.Senders[0], "sendersEquip": sc.Senders[1],
+		"sendsEach": sc.PerSender, "faultRate": sc.FaultRate, "contentionBias": sc.Bias, "faultsFor": sc.FaultsFor.String()}
 }
 
 // sideOf maps a pipe to the side that WRITES into it.
@@ -214,13 +241,103 @@ func (h *harness) mangle(p *simnet.Pipe, b []byte) []byte {
 			ev.kind = "nak"
 		}
 	}
+	// ---- reference sender model (sees what each end WRITES, before the faults)
+	if h.curPipe[side] != p {
+		// a new TCP generation: whatever send was in progress ended with the old one
+		h.curPipe[side] = p
+		h.att = [2]int{}
+		h.blockSent = [2]bool{}
+		h.staleAck = [2]bool{}
+		h.curHdr = [2][10]byte{}
+		h.fresh = [2]bool{true, true}
+		h.lastBlock = [2]*lineEvent{}
+	}
+	switch ev.kind {
+	case "enq":
+		h.att[side]++
+		h.blockSent[side] = false
+	case "block":
+		h.blockSent[side] = true
+		if ev.hdr != h.curHdr[side] {
+			// another block: a new send began at one of the ENQs since the last transmission of the
+			// previous one. After a send is given up the engine may start the next queued one on the
+			// same connection, and a send that never got the line uses exactly retry-limit+1 ENQs, so
+			// the attempt number of this transmission is known modulo retry-limit+1 when the previous
+			// send ended at a known point (fresh), and not at all otherwise.
+			h.curHdr[side] = ev.hdr
+			if h.fresh[side] && h.att[side] >= 1 {
+				h.att[side] = (h.att[side]-1)%(h.sc.Retry+1) + 1
+			} else {
+				h.att[side] = 1
+			}
+		}
+		h.fresh[side] = false
+		if h.att[side] > h.sc.Retry+1 {
+			w.Fail("ATTEMPTS", "side %d transmitted block %x in its attempt #%d (ENQs since the send of this block began): the retry limit is %d, so at most %d attempts; neither an ACK for the block, a successfully received block of the peer (contention yield) nor a new connection intervened", side, ev.hdr, h.att[side], h.sc.Retry, h.sc.Retry+1)
+		}
+		if h.att[side] == h.sc.Retry+1 && h.sc.Retry > 0 {
+			w.Probe("block_transmitted_in_last_permitted_attempt")
+		}
+		ev.num = (int(b[5]&0x7F) << 8) | int(b[6])
+		ev.sys = uint32(b[7])<<24 | uint32(b[8])<<16 | uint32(b[9])<<8 | uint32(b[10])
+		if ev.num <= 1 {
+			if txt, ok := refhsms.ParseASCII(b[11 : len(b)-2]); ok {
+				if i := strings.IndexByte(txt, '|'); i > 0 {
+					h.sysTok[side][ev.sys] = txt[:i]
+				}
+			} else if i := bytes.IndexByte(b[11:len(b)-2], '|'); i > 0 {
+				// first block of a multi-block message: the item runs on into the next blocks
+				body := b[11 : len(b)-2]
+				j := i
+				for j > 0 && body[j] != 'm' && (body[j-1] == 'm' || body[j-1] == '-' || (body[j-1] >= '0' && body[j-1] <= '9')) {
+					j--
+				}
+				h.sysTok[side][ev.sys] = string(body[j:i])
+			}
+		}
+	case "ack":
+		// an ACK written by this end: (a) it accepted the peer's last block; (b) if it has a send of
+		// its own in progress this was a successful contention yield, after which the postponed send
+		// restarts as a new send request (E4 7.8.2.1)
+		h.att[side] = 0
+		if lb := h.lastBlock[1-side]; lb != nil && !lb.faulted {
+			m := h.accepted[1-side][lb.sys]
+			if m == nil {
+				m = map[int]time.Duration{}
+				h.accepted[1-side][lb.sys] = m
+			}
+			if _, dup := m[lb.num]; !dup {
+				m[lb.num] = w.Now()
+			}
+		}
+	}
 	h.inBlockFault = false
 	out := b
 	// A late character is indistinguishable from a timely one, so after a delay fault the line
 	// carries stale handshake characters for a while; SEMI E4 gives no guarantee if a second fault
 	// strikes before they have been flushed by the next ENQ/EOT exchanges. Faults are therefore
 	// suspended for a quiet period after every delay fault.
-	if h.faultsOn && h.sc.FaultRate > 0 && w.Now() >= h.quietUntil && t.Choose("fault", h.sc.FaultRate) == 0 {
+	rate := h.sc.FaultRate
+	if h.sc.Bias && isBlock {
+		switch {
+		case side == 1 && h.hostYielding:
+			rate = 2
+		case side == 0 && h.att[0] >= 1:
+			rate = 3
+		}
+	}
+	if ev.kind == "eot" && side == 0 && h.att[0] > 0 {
+		h.hostYielding = true // the host grants the line although it has requested it itself
+	} else if side == 0 && (ev.kind == "ack" || ev.kind == "nak") {
+		if h.hostYielding && ev.kind == "nak" {
+			w.Probe("failed_contention_yield")
+			if h.curHdr[0] != ([10]byte{}) && !h.fresh[0] {
+				w.Probe("failed_contention_yield_after_a_transmission_of_the_block")
+			}
+		}
+		h.hostYielding = false
+	}
+	if h.faultsOn && h.sc.FaultRate > 0 && w.Now() >= h.quietUntil && t.Choose("fault", rate) == 0 {
 		ev.faulted = true
 		if isBlock {
 			switch t.Choose("fault", 4) {
@@ -265,7 +382,28 @@ func (h *harness) mangle(p *simnet.Pipe, b []byte) []byte {
 			}
 		}
 	}
+	if ev.kind == "ack" && len(out) == 1 && out[0] == ack {
+		if h.blockSent[1-side] {
+			// the peer's block is acknowledged (the ACK character really goes out): its send is complete
+			h.att[1-side] = 0
+			h.blockSent[1-side] = false
+			h.fresh[1-side] = true
+		} else {
+			// an ACK towards an end that is not waiting for one (it has already given that attempt up):
+			// the character stays on the line and will read as the answer to its next block
+			h.staleAck[1-side] = true
+		}
+	}
+	if isBlock && h.staleAck[side] {
+		h.staleAck[side] = false
+		h.att[side] = 0
+		h.blockSent[side] = false
+		w.Probe("stale_ack_may_complete_next_block")
+	}
 	h.events = append(h.events, ev)
+	if isBlock {
+		h.lastBlock[side] = &h.events[len(h.events)-1]
+	}
 	if isBlock {
 		w.Logf("line side=%d block num=%d E=%v sys=%x len=%d faulted=%v", side, (int(b[5]&0x7F)<<8)|int(b[6]), b[5]&0x80 != 0, b[7:11], len(b), ev.faulted)
 	} else {
@@ -334,6 +472,25 @@ func (h *harness) onDeliver(side int, m *hsms.DataMessage) {
 		}
 	}
 	h.delivered[side] = append(h.delivered[side], tok)
+}
+
+// t4Expired reports whether some gap between the receiver's acceptance (ACK) of two consecutive
+// blocks of m exceeded T4 (less 2 ms of slack) — the one case in which E4 itself has the receiver
+// drop a message all of whose blocks were acknowledged.
+func (h *harness) t4Expired(m *msg) bool {
+	for sys, tok := range h.sysTok[m.Side] {
+		if tok != m.Tok {
+			continue
+		}
+		acc := h.accepted[m.Side][sys]
+		for n, at := range acc {
+			if prev, ok := acc[n-1]; ok && n > 1 && at-prev > h.sc.T4-2*time.Millisecond {
+				return true
+			}
+		}
+	}
+
+	return false
 }
 
 func firstDiff(a, b []byte) int {
@@ -441,6 +598,13 @@ func (h *harness) final(reason string) {
 				continue
 			}
 			if m.Err == nil {
+				if _, got := pos[m.Tok]; !got && h.t4Expired(m) {
+					// E4's inter-block timer: the receiver legitimately discards a partial message when the
+					// next block arrives more than T4 after the previous one, although each block was ACKed
+					w.Probe("message_discarded_by_T4_between_blocks")
+
+					continue
+				}
 				if _, got := pos[m.Tok]; !got {
 					w.Fail("LOST", "send %s (%d blocks) returned success at %v but the message was never delivered to the peer's handlers", m.Tok, m.Blocks, m.TRet)
 
